@@ -23,7 +23,7 @@ PROPS = {
                       "checked through a hook after every operation. Evidence, not proof: histories are sampled.",
         "level_note": "Trusted: the reference queue (40 lines), the structural-walk hook, cargo/rustc. Far-future times are capped so a single fetch scans <= 2e5 buckets.",
         "level": "exploration",
-        "runs": {"quick": 600000, "thorough": 30000000},
+        "runs": {"quick": 600000, "thorough": 9000000},
         "rule": "seeded add/cancel/fetch histories on the real CQueue (adaptive time patterns: current time, head bucket, "
                 "bucket boundaries +-1ns, whole years +-1ns, ties, far future; cancel selectors: any / at current time in an "
                 "indexed bucket / zero bucket / min / max / last of bucket / already fetched) under a swarm of (n,t); "
@@ -46,7 +46,7 @@ PROPS = {
                       "run on the real Runtime; every handler records SimTime::now() and the oracle compares it with the scheduled "
                       "timestamp, monotonicity, exactly-once and accept/reject of every scheduling attempt. Sampled, not exhaustive.",
         "level_note": "Trusted: the static expansion of the program (each event instance has a statically known timestamp). Delays are capped at 1e5 bucket widths so a fetch stays bounded.",
-        "runs": {"quick": 2000000, "thorough": 100000000},
+        "runs": {"quick": 2000000, "thorough": 50000000},
         "rule": "seeded event programs on the real Runtime<App>: forest of event instances with static timestamps, scheduled via "
                 "add_event / add_event_in, before run / from at_sim_start / from handlers, start time in {0, small, large}, "
                 "attempts to schedule before the current simulated time; distinct = distinct program hash; non-trivial = >= 1 "
@@ -66,7 +66,7 @@ PROPS = {
                       "adds while paused are compared with the reference DES (only when that agreed with the real uninterrupted run). "
                       "Sampled, not exhaustive.",
         "level_note": "Trusted: reference DES for the expectation of counts between steps and for schedules with external adds.",
-        "runs": {"quick": 2000000, "thorough": 100000000},
+        "runs": {"quick": 2000000, "thorough": 50000000},
         "rule": "event programs as for C02/C03 x step schedules of dispatch_n_events(k), dispatch_events_until(t) with t below / at / "
                 "above the next timestamp or in the past, and add_event while paused (at the reported time, between, at the next "
                 "pending timestamp, later), then dispatch_all + finish; distinct = distinct program hash; non-trivial = a cut with "
@@ -85,7 +85,7 @@ PROPS = {
                       "handle exactly the prefix of the real unlimited sequence that an independent evaluator of the limit semantics "
                       "admits, return the rest as remaining events with their timestamps, and report count and end time. Sampled.",
         "level_note": "Trusted: the 10-line limit evaluator written from the property text.",
-        "runs": {"quick": 2000000, "thorough": 100000000},
+        "runs": {"quick": 2000000, "thorough": 50000000},
         "rule": "event programs as for C02/C03 x limits: max_itr / max_time / limit(tree) calls (combined with OR), trees of "
                 "None/EventCount/SimTime/And/Or up to depth 3, counts around the number of events, times below/at/between/above "
                 "timestamps; distinct = distinct program hash; non-trivial = the limit stopped the run with events remaining or "
@@ -103,7 +103,7 @@ PROPS = {
                       "order must equal, id by id, the order computed from the property's tie rule. Sampled, not exhaustive.",
         "level_note": "Trusted: the executable statement of the tie rule in the harness. Claimed for the cqueue backend only, as the property says.",
         "level": "exploration",
-        "runs": {"quick": 1000000, "thorough": 50000000},
+        "runs": {"quick": 1000000, "thorough": 17000000},
         "rule": "tie-heavy seeded histories (same-instant bursts, zero-delay inserts at the current instant, ties on year "
                 "boundaries) on the real CQueue and event programs on the real Runtime; oracle = exact tie rule (events "
                 "scheduled for the current instant first in FIFO order, then by (timestamp, scheduling order)); "
@@ -122,7 +122,7 @@ PROPS = {
                       "counter and checksum. Sampled, not exhaustive; Miri is deliberately not part of the decision.",
         "level_note": "Trusted: the allocator observer hook reports what the allocator really does; payload types that do not fit a page are outside the property.",
         "level": "exploration",
-        "runs": {"quick": 100000, "thorough": 5000000},
+        "runs": {"quick": 100000, "thorough": 700000},
         "rule": "seeded add/cancel/fetch histories ended by dropping the queue at an arbitrary step (crash point), for 9 "
                 "payload types (1 B .. 2 KiB, align 1..16, with/without destructor, zero-sized) x page sizes "
                 "{system,512,1024,4096,16384} x (n,t); oracle = shadow allocation map fed by the allocator observer hook "
@@ -155,7 +155,7 @@ PROPS.update({
                    "number of unrelated simulations and allocate a heap prelude; all traces (time, module, message, random values, result) "
                    "must be identical. No reference model is involved. Sampled, not exhaustive.",
         level_note="Trusted: the trace recorder (records never contain module ids, counters or addresses).",
-        runs={"quick": 100000, "thorough": 5000000},
+        runs={"quick": 100000, "thorough": 4500000},
         rule="generated network models x des seeds; each executed 2x in-process and 1x in another process after warm-up sims; distinct = "
              "distinct program hash; non-trivial = the trace contains a jittered delivery or a random draw",
         assumptions=["traces abstract from process-dependent identities by construction", "sampled programs, not exhaustive"]),
@@ -165,7 +165,7 @@ PROPS.update({
                    "per-direction channel model is stepped through the recorded offers (busy flag and finish time observed right before each "
                    "send) and every offered message must be delivered exactly once in its time window or dropped by the stated rule.",
         level_note="Trusted: the channel model (60 lines) and Duration::from_secs_f64 for size*8/bitrate. At an exact tie between an offer and the end of a transmission both orders are accepted and followed.",
-        runs={"quick": 600000, "thorough": 30000000},
+        runs={"quick": 600000, "thorough": 15000000},
         rule="sender/receiver pairs with one channel each (both directions used) x metrics menu x offer schedules; distinct = distinct program "
              "hash; non-trivial = at least one offer met a busy channel",
         fault_probes=["dropped_busy", "dropped_queue_full", "queued"],
@@ -188,7 +188,7 @@ PROPS.update({
                    "start stages per module, invalid builder calls mixed in, ordinary traffic afterwards; the recorded at_sim_start / "
                    "at_sim_end calls must equal the stage-major depth-first pre-order sequence computed from the declared tree.",
         level_note="Trusted: the reference sequence generator (20 lines). The schedule dimension of this property is the insertion order.",
-        runs={"quick": 400000, "thorough": 20000000},
+        runs={"quick": 400000, "thorough": 17000000},
         rule="module trees x valid insertion orders x stage counts; distinct = distinct program hash; non-trivial = insertion order differs "
              "from pre-order and some module declares >= 2 stages",
         fault_probes=["invalid_node_rejected"],
@@ -199,7 +199,7 @@ PROPS.update({
                    "supplied globally (with_stack / set_stack) and per module (appended / prepended) under message, start-up, restart and "
                    "tear-down events; the recorded hook calls are parsed against the bracket grammar of the property.",
         level_note="Trusted: the bracket parser. Module::reset runs outside brackets and is skipped by the parser; timer wake-up brackets are covered by the async scenarios.",
-        runs={"quick": 300000, "thorough": 15000000},
+        runs={"quick": 300000, "thorough": 20000000},
         rule="processing stacks x event kinds x message sequences; distinct = distinct program hash; non-trivial = a stack of >= 2 elements, "
              ">= 1 consumed message and >= 1 non-message event",
         fault_probes=["message_consumed_by_element"],
@@ -218,7 +218,7 @@ PROPS.update({
                    "requested instant, that messages are dropped iff a module on their way is down when they pass, and that all other "
                    "traffic and timers are untouched.",
         level_note="Trusted: the downtime history checker and the gate-graph model. Events at the exact shutdown / restart instant are accepted either way (the property does not rank them).",
-        runs={"quick": 300000, "thorough": 15000000},
+        runs={"quick": 300000, "thorough": 11000000},
         rule="multi-module models x shutdown/restart faults (from handlers, on n-th receive, several victims, up to 3 cycles each); "
              "distinct = distinct program hash; non-trivial = a shutdown happened and a message or timer fell strictly inside the downtime",
         fault_probes=["shutdown_cycles", "restart_completed", "message_or_timer_inside_downtime"],
@@ -234,7 +234,7 @@ PROPS.update({
                    "run() must report exactly the non-catching victims; a reference simulation run afterwards in the same process must equal "
                    "its fresh-process trace.",
         level_note="Trusted: the twin construction (victims send immediately only and own no transit gates, so 'fallen silent' is unambiguous).",
-        runs={"quick": 100000, "thorough": 5000000},
+        runs={"quick": 100000, "thorough": 6500000},
         rule="multi-module models x panic placements (module x callback x occurrence, several victims) x stereotypes; distinct = distinct "
              "program hash; non-trivial = at least one module panicked and a healthy module kept working afterwards",
         fault_probes=["module_panicked"],
@@ -249,7 +249,7 @@ PROPS.update({
                    "successful casts. Every token must be dropped exactly once, values must come back unchanged, and Message::length must be "
                    "64 + the independently computed declared length, which is also the size an idle channel is observed to charge.",
         level_note="Trusted: the per-type length table written from the property text and the token ledger.",
-        runs={"quick": 300000, "thorough": 15000000},
+        runs={"quick": 300000, "thorough": 22000000},
         rule="body types x operation sequences x loss faults; distinct = distinct program hash; non-trivial = >= 1 clone, >= 1 failed cast and "
              ">= 1 message lost to a fault",
         fault_probes=["message_lost_to_fault", "failed_cast", "wrong_type_access"],
@@ -264,7 +264,7 @@ PROPS.update({
                    "EventCount(k) for every k up to 40; the result tuple is dropped in every order. Every token must have been dropped "
                    "exactly once; afterwards a reference simulation in the same process must equal its fresh-process trace.",
         level_note="Trusted: the token ledger. Programs are sampled; stop points of a sampled program are enumerated up to 40.",
-        runs={"quick": 40000, "thorough": 2000000},
+        runs={"quick": 40000, "thorough": 1700000},
         rule="generated simulations x stopping points; distinct = distinct program hash; non-trivial = some stop point left messages undelivered "
              "(in the event set or in channel queues)",
         fault_probes=["stop_point_enumerated", "dropped_before_build", "dropped_before_start", "ended_with_errors"],
@@ -281,7 +281,7 @@ PROPS.update({
                    "after its first poll, intervals with all three missed-tick behaviours and late ticks) run on the real time driver and the "
                    "real per-module tokio runtime; a virtual-time evaluator of the scripts gives the exact instant and outcome of every await.",
         level_note="Trusted: the script evaluator (200 lines). Interval lateness is kept off the undocumented (0, 5 ms] band; at equal select! deadlines any minimal branch is accepted.",
-        runs={"quick": 500000, "thorough": 25000000},
+        runs={"quick": 500000, "thorough": 20000000},
         rule="async module programs x deadline orders; distinct = distinct program hash; non-trivial = a module with >= 2 tasks in which a "
              "timer is dropped, reset or loses a select/timeout while other timers of the module are pending",
         fault_probes=["task_polls"],
@@ -296,7 +296,7 @@ PROPS.update({
                    "Most runs stay below the executor's budgets; 1 in 12 goes far beyond (62..3000 tasks, chains, >= 128 receives) and "
                    "reproduces the open known finding.",
         level_note="Trusted: the script evaluator; a poll counter (future adapter + invisible processing element) supplies the facts the known-finding predicate is matched on.",
-        runs={"quick": 200000, "thorough": 10000000},
+        runs={"quick": 200000, "thorough": 700000},
         rule="async module programs x number of runnable tasks x chain depth x per-poll work; distinct = distinct program hash; non-trivial = an "
              "instant with >= 2 task resumptions",
         fault_probes=["module_event_with_61_or_more_polls"],
